@@ -16,17 +16,156 @@ let bs x = if x then "#t" else "#f"
 let len l = List.length l
 let pmod a m = ((a mod m) + m) mod m
 
-type value = L of z list | P of (z * z) list | T of tree
+type value = L of z list | P of (z * z) list | T of tree | D of z dq | R of z ralist
 type res = V of value | Q of string
 (* the model's tree of an iset, printed like harness/c18_hist.scm iset-shape *)
 let rec shape = function
   | Nil -> "_"
   | Node (s, e, bits, l, r) ->
     "(" ^ s_int s ^ " " ^ s_int e ^ " " ^ (match bits with Some b -> hex_of_z b | None -> "#f") ^ " " ^ shape l ^ " " ^ shape r ^ ")"
+let some = function Some x -> x | None -> failwith "the model reports an error (a Scheme error on this input)"
+let ion = int_of_nat
+let spaced l = String.concat " " (List.map s_int l)
+let mark ok name = if ok then "" else name
+let zeq a b = iz a = iz b
+let zplus a b = zi (iz a + iz b)
+let rec last_of = function [x] -> Some x | _ :: l -> last_of l | [] -> None
+(* SRFI 134 inside the model (coq/C18/Deque.v): the record like harness/c18_hist.scm dump-deque; the marks apply the
+   model's own observers to the model's own listing (theorem dq_observers_refine_lists: never printed) *)
+let dq_shape (d : z dq) = "(" ^ string_of_int (ion d.lenf) ^ ":" ^ spaced d.fr ^ ":" ^ string_of_int (ion d.lenr) ^ ":" ^ spaced d.rr ^ ")"
+let dq_marks (d : z dq) =
+  let l = dq_to_list d in
+  let n = List.length l in
+  let yes _ = true in
+  mark (ion (dq_length d) = n) "!len" ^ mark (dq_is_empty d = (n = 0)) "!empty"
+  ^ (if n = 0 then "" else
+       mark (dq_front d = Some (List.hd l)) "!front" ^ mark (dq_back d = last_of l) "!back"
+       ^ mark (dq_to_list (some (dq_remove_front d)) = List.tl l) "!remf"
+       ^ mark (dq_to_list (some (dq_remove_back d)) = seq_remove_back l) "!remb"
+       ^ mark (dq_ref d (ni 0) = Some (List.hd l)) "!ref0" ^ mark (dq_ref d (ni (n - 1)) = last_of l) "!reflast"
+       ^ mark (dq_ref d (ni (n / 2)) = Some (List.nth l (n / 2))) "!refmid"
+       ^ mark (dq_find yes d = Some (List.hd l)) "!find" ^ mark (dq_find_right yes d = last_of l) "!findr")
+  ^ mark (dq_fold (fun x acc -> x :: acc) [] d = List.rev l) "!fold" ^ mark (dq_fold_right (fun x acc -> x :: acc) [] d = l) "!foldr"
+  ^ mark (ion (dq_count yes d) = n) "!count" ^ mark (dq_for_each_order d = l) "!foreach" ^ mark (dq_for_each_right_order d = List.rev l) "!foreachr"
+  ^ mark (dq_drain (ni n) d = Some l) "!generator" ^ mark (dq_to_list (dq_reverse d) = List.rev l) "!reverse"
+  ^ mark (dq_equal zeq d (dq_of_list l)) "!eqlist"
+(* SRFI 101 inside the model (coq/C18/RaList.v): cached sizes / listing by car+cdr / the model's own marks *)
+let ra_listing (v : z ralist) = some (ra_to_list (ra_length v) v)
+let ra_marks (v : z ralist) =
+  let l = ra_listing v in
+  let n = List.length l in
+  let c = ra_of_list l and m = some (ra_make_list (ni n) (zi 0)) in
+  mark (ion (ra_length v) = n) "!len" ^ mark (ra_flat v = l) "!flat" ^ mark (ra_equal zeq v c) "!equal"
+  ^ mark (match ra_map2 zplus v m with Some r -> ra_flat r = l | None -> false) "!map2mk"
+  ^ mark (match ra_map2 zplus m v with Some r -> ra_flat r = l | None -> false) "!map2mk'"
+  ^ mark (match ra_map3 (fun x y z -> zplus x (zplus y z)) c v m with Some r -> ra_flat r = List.map (fun x -> zplus x x) l | None -> false) "!map3"
+  ^ mark (ra_for_each2 zplus v m = Some l) "!foreach2"
+  ^ mark (List.for_all (fun i -> ra_list_ref v (ni i) = Some (List.nth l i)) (List.init (min n 40) (fun i -> i))) "!ref"
 let dump = function L l -> dump_list l | P l -> dump_alist l | T t -> shape t ^ "/" ^ dump_list (to_list t)
+                    | D d -> dq_shape d ^ "/" ^ dump_list (dq_to_list d) ^ dq_marks d
+                    | R v -> "(" ^ String.concat " " (List.map (fun s -> string_of_int (ion s)) (ra_sizes v)) ^ ")/" ^ dump_list (ra_listing v) ^ ra_marks v
 let gl = function L l -> l | _ -> failwith "expected a list version"
 let gp = function P l -> l | _ -> failwith "expected an alist version"
 let gt = function T t -> t | _ -> failwith "expected a tree version"
+let gd = function D d -> d | _ -> failwith "expected a deque version"
+let gr = function R r -> r | _ -> failwith "expected a random-access list version"
+let iota n x = List.init n (fun i -> zi (x + i))
+(* the predicate (k, t) of harness/c18_hist.scm pred-of *)
+let pred k t : z -> bool = fun y ->
+  let yi = iz y in
+  match pmod k 5 with
+  | 0 -> pmod yi (2 + (abs t) mod 2) = 0
+  | 1 -> yi < t
+  | 2 -> yi >= t
+  | 3 -> yi <> t
+  | _ -> yi = t
+
+(* SRFI 134: the versions are the model's records (coq/C18/Deque.v), one model call per operation *)
+let deque_step op (a : int array) (vs : value array) : res =
+  let v k = gd vs.(a.(k)) and x k = zi a.(k) in
+  let vd d = V (D d) in
+  let n0 () = ion (dq_length (v 0)) in
+  let pos k = ni (pmod a.(k) (n0 () + 1)) in
+  let p () = pred a.(1) a.(2) in
+  let inc y = zi (iz y + 1) in
+  let opt = function Some r -> s_int r | None -> "-" in
+  let guard f = if dq_is_empty (v 0) then Q "-" else Q (s_int (some (f ()))) in
+  match op with
+  | "addf" -> vd (dq_add_front (v 0) (x 1))
+  | "addb" -> vd (dq_add_back (v 0) (x 1))
+  | "remf" -> if dq_is_empty (v 0) then vd (v 0) else vd (some (dq_remove_front (v 0)))
+  | "remb" -> if dq_is_empty (v 0) then vd (v 0) else vd (some (dq_remove_back (v 0)))
+  | "take" -> vd (some (dq_take (v 0) (pos 1)))
+  | "drop" -> vd (some (dq_drop (v 0) (pos 1)))
+  | "taker" -> vd (some (dq_take_right (v 0) (pos 1)))
+  | "dropr" -> vd (some (dq_drop_right (v 0) (pos 1)))
+  | "splita" -> vd (fst (some (dq_split_at (v 0) (pos 1))))
+  | "splitb" -> vd (snd (some (dq_split_at (v 0) (pos 1))))
+  | "append" -> vd (dq_append (v 0) (v 1))
+  | "append3" -> vd (dq_append_all [v 0; v 1; v 2])
+  | "reverse" -> vd (dq_reverse (v 0))
+  | "map1" -> vd (dq_map inc (v 0))
+  | "filter" -> vd (dq_filter (fun y -> pmod (iz y) a.(1) = 0) (v 0))
+  | "filterp" -> vd (dq_filter (p ()) (v 0))
+  | "removep" -> vd (dq_remove (p ()) (v 0))
+  | "parta" -> vd (fst (dq_partition (p ()) (v 0)))
+  | "partb" -> vd (snd (dq_partition (p ()) (v 0)))
+  | "takew" -> vd (dq_take_while (p ()) (v 0))
+  | "dropw" -> vd (dq_drop_while (p ()) (v 0))
+  | "takewr" -> vd (dq_take_while_right (p ()) (v 0))
+  | "dropwr" -> vd (dq_drop_while_right (p ()) (v 0))
+  | "spana" -> vd (fst (dq_span (p ()) (v 0)))
+  | "spanb" -> vd (snd (dq_span (p ()) (v 0)))
+  | "breaka" -> vd (fst (dq_break (p ()) (v 0)))
+  | "breakb" -> vd (snd (dq_break (p ()) (v 0)))
+  | "filtermap" -> let q = p () in vd (dq_filter_map (fun y -> if q y then Some (inc y) else None) (v 0))
+  | "appendmap" -> let q = p () and big = n0 () > 60 in vd (dq_append_map (fun y -> if q y && not big then [y; y] else [y]) (v 0))
+  | "zip" -> vd (dq_map (fun (y, z) -> zplus y z) (dq_zip2 (v 0) (v 1)))
+  | "oflist" -> vd (dq_of_list [x 0; x 1; x 2])
+  | "ofn" | "ofgen" | "unfold" -> vd (dq_of_list (iota (pmod a.(0) 100) a.(1)))
+  | "unfoldr" -> vd (dq_of_list (List.rev (iota (pmod a.(0) 100) a.(1))))
+  | "tab" -> vd (dq_tabulate (ni (pmod a.(0) 100)) (fun i -> zi (ion i + a.(1))))
+  | "front" -> guard (fun () -> dq_front (v 0))
+  | "back" -> guard (fun () -> dq_back (v 0))
+  | "ref" -> guard (fun () -> dq_ref (v 0) (ni (pmod a.(1) (n0 ()))))
+  | "len" -> Q (string_of_int (n0 ()))
+  | "sum" -> Q (s_int (dq_fold zplus (zi 0) (v 0)))
+  | "empty" -> Q (bs (dq_is_empty (v 0)))
+  | "eq" -> Q (bs (dq_equal zeq (v 0) (v 1)))
+  | "anyp" -> Q (bs (dq_any (p ()) (v 0)))
+  | "everyp" -> Q (bs (dq_every (p ()) (v 0)))
+  | "findp" -> Q (opt (dq_find (p ()) (v 0)))
+  | "findrp" -> Q (opt (dq_find_right (p ()) (v 0)))
+  | "countp" -> Q (string_of_int (ion (dq_count (p ()) (v 0))))
+  | _ -> failwith ("unknown deque op " ^ op)
+
+(* SRFI 101: the versions are the model's kons chains (coq/C18/RaList.v) *)
+let ra_step op (a : int array) (vs : value array) : res =
+  let v k = gr vs.(a.(k)) and x k = zi a.(k) in
+  let vr r = V (R r) in
+  let len k = ion (ra_length (v k)) in
+  let inc y = zi (iz y + 1) in
+  match op with
+  | "cons" -> vr (ra_cons (x 1) (v 0))
+  | "cdr" -> if v 0 = [] then vr (v 0) else vr (some (ra_cdr (v 0)))
+  | "set" -> if v 0 = [] then vr (v 0) else vr (some (ra_list_set (v 0) (ni (pmod a.(1) (len 0))) (x 2)))
+  | "refupd" -> if v 0 = [] then vr (v 0) else vr (snd (some (ra_list_ref_update (v 0) (ni (pmod a.(1) (len 0))) inc)))
+  | "tail" -> vr (some (ra_list_tail (v 0) (ni (pmod a.(1) (len 0 + 1)))))
+  | "append" -> vr (ra_append (v 0) (v 1))
+  | "append3" -> vr (ra_append (v 0) (ra_append (v 1) (v 2)))
+  | "reverse" -> vr (ra_reverse (v 0))
+  | "map1" -> vr (ra_map inc (v 0))
+  | "map2" -> let n = min (len 0) (len 1) in
+    let p = some (ra_list_tail (v 0) (ni (len 0 - n))) and q = some (ra_list_tail (v 1) (ni (len 1 - n))) in
+    vr (some (ra_map2 zplus p q))
+  | "oflist" -> vr (ra_of_list [x 0; x 1; x 2])
+  | "mklist" -> vr (some (ra_make_list (ni (pmod a.(0) 300)) (x 1)))
+  | "listn" | "ofn" -> vr (ra_of_list (iota (pmod a.(0) 300) a.(1)))
+  | "car" -> if v 0 = [] then Q "-" else Q (s_int (some (ra_car (v 0))))
+  | "ref" -> if v 0 = [] then Q "-" else Q (s_int (some (ra_list_ref (v 0) (ni (pmod a.(1) (len 0))))))
+  | "len" -> Q (string_of_int (len 0))
+  | "equal" -> Q (bs (ra_equal zeq (v 0) (v 1)))
+  | _ -> failwith ("unknown ra op " ^ op)
 
 (* (chibi iset) inside the model (coq/C18/ISet.v): the versions are the model's trees *)
 let isett_step op (a : int array) (vs : value array) : res =
@@ -150,6 +289,34 @@ let seq_step fam op a vs =
   | "ra", "tail" -> vl (seq_drop (ni (pos 1)) (v 0))
   | "ra", "car" -> guard (fun () -> qi (List.hd (v 0)))
   | ("ra" | "deque"), "ref" -> guard (fun () -> qi (nth (v 0) (idx 1)))
+  (* list oracle of the operations added with the Coq models of SRFI 101 / 134: the right-hand sides of the refinement theorems *)
+  | _, "append3" -> vl (v 0 @ v 1 @ v 2)
+  | "ra", "map2" -> let n = min (len (v 0)) (len (v 1)) in
+    vl (List.map2 zplus (seq_drop (ni (len (v 0) - n)) (v 0)) (seq_drop (ni (len (v 1) - n)) (v 1)))
+  | "ra", "mklist" -> vl (List.init (pmod a.(0) 300) (fun _ -> x 1))
+  | "ra", ("listn" | "ofn") -> vl (iota (pmod a.(0) 300) a.(1))
+  | "ra", "equal" -> Q (bs (List.length (v 0) = List.length (v 1) && List.for_all2 zeq (v 0) (v 1)))
+  | "deque", "splita" -> vl (seq_take (ni (pos 1)) (v 0))
+  | "deque", "splitb" -> vl (seq_drop (ni (pos 1)) (v 0))
+  | "deque", "filterp" | "deque", "parta" -> vl (List.filter (pred a.(1) a.(2)) (v 0))
+  | "deque", "removep" | "deque", "partb" -> vl (remove_list (pred a.(1) a.(2)) (v 0))
+  | "deque", "takew" | "deque", "spana" -> vl (fst (span_list (pred a.(1) a.(2)) (v 0)))
+  | "deque", "dropw" | "deque", "spanb" -> vl (snd (span_list (pred a.(1) a.(2)) (v 0)))
+  | "deque", "breaka" -> vl (fst (break_list (pred a.(1) a.(2)) (v 0)))
+  | "deque", "breakb" -> vl (snd (break_list (pred a.(1) a.(2)) (v 0)))
+  | "deque", "takewr" -> vl (List.rev (fst (span_list (pred a.(1) a.(2)) (List.rev (v 0)))))
+  | "deque", "dropwr" -> vl (List.rev (snd (span_list (pred a.(1) a.(2)) (List.rev (v 0)))))
+  | "deque", "filtermap" -> vl (List.map (fun y -> zi (iz y + 1)) (List.filter (pred a.(1) a.(2)) (v 0)))
+  | "deque", "appendmap" -> let q = pred a.(1) a.(2) and big = n0 () > 60 in
+    vl (List.concat_map (fun y -> if q y && not big then [y; y] else [y]) (v 0))
+  | "deque", "zip" -> let n = min (len (v 0)) (len (v 1)) in vl (List.map2 zplus (seq_take (ni n) (v 0)) (seq_take (ni n) (v 1)))
+  | "deque", ("ofn" | "ofgen" | "unfold" | "tab") -> vl (iota (pmod a.(0) 100) a.(1))
+  | "deque", "unfoldr" -> vl (List.rev (iota (pmod a.(0) 100) a.(1)))
+  | "deque", "anyp" -> Q (bs (List.exists (pred a.(1) a.(2)) (v 0)))
+  | "deque", "everyp" -> Q (bs (List.for_all (pred a.(1) a.(2)) (v 0)))
+  | "deque", "findp" -> Q (match List.find_opt (pred a.(1) a.(2)) (v 0) with Some r -> s_int r | None -> "-")
+  | "deque", "findrp" -> Q (match List.find_opt (pred a.(1) a.(2)) (List.rev (v 0)) with Some r -> s_int r | None -> "-")
+  | "deque", "countp" -> Q (string_of_int (len (List.filter (pred a.(1) a.(2)) (v 0))))
   | "deque", "addf" -> vl (x 1 :: v 0)
   | "deque", "addb" -> vl (seq_add_back (v 0) (x 1))
   | "deque", "remf" -> vl (seq_remove_front (v 0))
@@ -200,7 +367,7 @@ let parse_op tok =
 
 let run_hist fam toks =
   let prog = List.map parse_op toks in
-  let empty = match fam with "bag" | "map" | "hmap" | "omap" -> P [] | "isett" -> T make_iset0 | _ -> L [] in
+  let empty = match fam with "bag" | "map" | "hmap" | "omap" -> P [] | "isett" -> T make_iset0 | "deque" -> D dq_empty | "ra" -> R [] | _ -> L [] in
   let vs = Array.make (List.length prog + 1) empty in
   let n = ref 1 in
   let buf = Buffer.create 1024 in
@@ -209,7 +376,11 @@ let run_hist fam toks =
     | "isett" -> isett_step
     | "bag" -> bag_step
     | "map" | "hmap" | "omap" -> map_step
-    | "ra" | "deque" | "l1" | "v133" -> seq_step fam
+    | "deque" -> deque_step
+    | "ra" -> ra_step
+    | "dequeo" -> seq_step "deque"
+    | "rao" -> seq_step "ra"
+    | "l1" | "v133" -> seq_step fam
     | _ -> failwith ("unknown family " ^ fam) in
   List.iter (fun (op, a) ->
       (match step op a vs with
